@@ -187,6 +187,9 @@ struct Scenario {
 
 /// What the model says the concurrent phase must produce, independent of the order
 struct Expected {
+    /// no single expectation exists (the operations do not commute: an abort races with work of
+    /// the command it aborts); only the model-free monitors apply
+    free: bool,
     effects: Vec<EffObs>,
     events: Vec<EvObs>,
     per_task: Option<BTreeMap<usize, Vec<EvObs>>>,
@@ -273,6 +276,7 @@ fn commuting_expectation(model: &Model, ops: &[ConcOp]) -> Option<Expected> {
     }
     let (effects, events, resolve, _) = reference?;
     Some(Expected {
+        free: false,
         effects,
         events,
         per_task: if order_stable { per_task_ref } else { None },
@@ -280,7 +284,116 @@ fn commuting_expectation(model: &Model, ops: &[ConcOp]) -> Option<Expected> {
     })
 }
 
+/// Abort races: a thread aborts a command (from inside `update`, or through the handle followed
+/// by a call) while another thread resolves a request of that command whose task then emits a
+/// burst of events. The orders do not commute (all of the burst, or none of it), so there is no
+/// single expectation; what must hold in every interleaving is conservation: whatever a task
+/// did emit is applied exactly once, in emission order, and after every call has returned the
+/// aborted command never runs again.
+fn gen_abort_race(rng: &mut Rng, n_ops: usize) -> (Scenario, Model, Expected) {
+    let derive_app = rng.chance(1, 3);
+    let mut instrs = vec![];
+    let stream = rng.chance(1, 2);
+    if stream {
+        instrs.push(Instr::Open { site: 1 });
+        for r in 0..rng.range(2, 4) as u32 {
+            instrs.push(Instr::Next { stream: 0 });
+            for i in 0..rng.range(2, 5) as u32 {
+                instrs.push(Instr::Emit { tag: 100 + r * 10 + i, reg: Some(r as usize) });
+                if rng.chance(1, 5) {
+                    instrs.push(Instr::Notify { site: 300 + r * 10 + i });
+                }
+            }
+        }
+    } else {
+        instrs.push(Instr::Req { site: 1, arg: None });
+        for i in 0..rng.range(2, 8) as u32 {
+            instrs.push(Instr::Emit { tag: 100 + i, reg: Some(0) });
+            if rng.chance(1, 5) {
+                instrs.push(Instr::Notify { site: 300 + i });
+            }
+        }
+    }
+    instrs.push(Instr::Req { site: 2, arg: None });
+    instrs.push(Instr::Emit { tag: 199, reg: None });
+    let wrap = |c: Cmd, rng: &mut Rng, base: u32| -> Cmd {
+        let mut c = c;
+        for layer in 0..rng.below(3) {
+            c = match rng.below(5) {
+                0 => Cmd::MapEvent(Box::new(c), 0),
+                1 => Cmd::All(vec![c, Cmd::Notify(base + layer as u32)]),
+                2 => Cmd::Then(Box::new(Cmd::Done), Box::new(c)),
+                3 => Cmd::And(Box::new(c), Box::new(Cmd::Done)),
+                _ => Cmd::MapEffect(Box::new(c), 0),
+            };
+        }
+        c
+    };
+    let inner = wrap(Cmd::Async(Script { instrs }), rng, 60);
+    let abortable = wrap(Cmd::Abortable(Box::new(inner), 1), rng, 64);
+    let sibling = Cmd::Async(Script {
+        instrs: vec![
+            Instr::Req { site: 70, arg: None },
+            Instr::Emit { tag: 7000, reg: Some(0) },
+            Instr::Emit { tag: 7001, reg: Some(0) },
+            Instr::Req { site: 71, arg: None },
+        ],
+    });
+    let with_sibling = rng.chance(2, 3);
+    let program = if !with_sibling {
+        abortable
+    } else if rng.chance(1, 2) {
+        Cmd::And(Box::new(abortable), Box::new(sibling))
+    } else {
+        Cmd::All(vec![sibling, abortable])
+    };
+    let mut model = Model::new(Mode::CORE);
+    model.start(&program);
+    let mut prefix = vec![];
+    if stream && rng.chance(1, 2) {
+        let a = Action::Resolve { site: 1, arg: 0, val: 501 };
+        model.act(&a);
+        prefix.push(a);
+    }
+    let mut ops = vec![
+        ConcOp::Act(Action::Resolve { site: 1, arg: 0, val: 601 }),
+        ConcOp::Act(Action::Abort { handle: 1 }),
+    ];
+    if n_ops > 2 && with_sibling {
+        ops.push(ConcOp::Act(Action::Resolve { site: 70, arg: 0, val: 602 }));
+    } else if n_ops > 2 {
+        ops.push(ConcOp::View);
+    }
+    if rng.chance(1, 2) {
+        ops.swap(0, 1);
+    }
+    let scn = Scenario {
+        bridge: 0,
+        legacy: false,
+        derive_app,
+        program,
+        prefix,
+        ops,
+    };
+    let exp = Expected {
+        free: true,
+        effects: vec![],
+        events: vec![],
+        per_task: None,
+        resolve: vec![],
+    };
+    (scn, model, exp)
+}
+
+/// `--families events`: only the scenario families about event delivery (bursts of events and
+/// abort races), used by the C03 lane
+static EVENTS_ONLY: std::sync::atomic::AtomicBool = std::sync::atomic::AtomicBool::new(false);
+
 fn gen_scenario(rng: &mut Rng, thorough: bool, n_ops: usize) -> Option<(Scenario, Model, Expected)> {
+    let events_only = EVENTS_ONLY.load(Ordering::Relaxed);
+    if rng.chance(1, if events_only { 3 } else { 7 }) {
+        return Some(gen_abort_race(rng, n_ops));
+    }
     let bridge: u8 = if rng.chance(1, 4) { rng.range(1, 2) as u8 } else { 0 };
     let legacy = bridge == 0 && rng.chance(1, 4);
     let derive_app = legacy || rng.chance(1, 3);
@@ -291,7 +404,7 @@ fn gen_scenario(rng: &mut Rng, thorough: bool, n_ops: usize) -> Option<(Scenario
     cfg.task_abort = false;
     cfg.event_then = true;
     cfg.script_weight = 20;
-    let burst = rng.chance(1, 4);
+    let burst = events_only || rng.chance(1, 4);
     let join_family = !burst && rng.chance(1, 5);
     let program = if join_family {
         // a task waiting on several requests at once (join / select), possibly inside wrappers:
@@ -469,6 +582,9 @@ enum ThreadOp<Ef> {
     Resolve(Key, ReqObj, u64),
     Drop(Key, ReqObj),
     Start(Cmd, bool),
+    /// abort a command: from inside `update` (a Cancel event), or through the handle followed
+    /// by a call that lets the core notice
+    Abort(u32, bool),
     Noop,
     View,
     _P(std::marker::PhantomData<Ef>),
@@ -514,6 +630,14 @@ where
                 Event::Start(Box::new(cmd))
             };
             out.effects = core.process_event(ev);
+        }
+        ThreadOp::Abort(h, inside_update) => {
+            if inside_update {
+                out.effects = core.process_event(Event::Cancel(h));
+            } else {
+                cmdlab::ops::call_abort(h);
+                out.effects = core.process_event(Event::Noop);
+            }
         }
         ThreadOp::Noop => out.effects = core.process_event(Event::Noop),
         ThreadOp::View => out.view = Some(core.view().log),
@@ -714,6 +838,8 @@ where
     Core<A>: Sync,
 {
     cmdlab::ops::reset_registries();
+    cmdlab::ops::EMIT_LOG.lock().unwrap().clear();
+    cmdlab::ops::EMIT_LOG_ON.store(exp.free, Ordering::SeqCst);
     let mut findings: Vec<(String, String, Value)> = vec![];
     let mut host = CoreHost::<A>::new(scn.legacy);
     let mode = if scn.legacy { Mode::LEGACY } else { Mode::CORE };
@@ -760,7 +886,9 @@ where
                 ThreadOp::Drop((*site, *arg), obj)
             }
             ConcOp::Act(Action::Noop) => ThreadOp::Noop,
-            ConcOp::Act(Action::Abort { .. }) | ConcOp::Act(Action::Extend(_)) | ConcOp::Act(Action::Batch(_)) => unreachable!(),
+            // which way the abort is done follows from the scenario (deterministic per scenario)
+            ConcOp::Act(Action::Abort { handle }) => ThreadOp::Abort(*handle, hash_json(&scn.program) % 2 == 0),
+            ConcOp::Act(Action::Extend(_)) | ConcOp::Act(Action::Batch(_)) => unreachable!(),
             ConcOp::Start(c) => ThreadOp::Start(c.clone(), false),
             ConcOp::View => ThreadOp::View,
         }));
@@ -808,7 +936,7 @@ where
         if let Some((key, obj)) = o.back {
             host.table.insert(key, obj);
         }
-        if let (Some(exp_r), Some(ok)) = (exp.resolve[i], o.resolve_ok) {
+        if let (Some(exp_r), Some(ok)) = (exp.resolve.get(i).copied().flatten(), o.resolve_ok) {
             match (exp_r, ok) {
                 (Expect::Ok, false) => findings.push((
                     "resolve/rejected-but-should-be-accepted".into(),
@@ -849,7 +977,9 @@ where
         union.effects.extend(tmp.effects);
     }
     let s = host.core.verif_executor_stats();
-    if s.ready_len != 0 || s.spawn_len != 0 || s.requests_len != 0 || s.events_len != 0 {
+    // (an aborted command keeps the stale ids of its cancelled tasks in its ready queue; they are
+    // not runnable work, so the ready count says nothing once an abort is part of the scenario)
+    if (s.ready_len != 0 && !exp.free) || s.spawn_len != 0 || s.requests_len != 0 || s.events_len != 0 {
         findings.push((
             "residual/core-not-quiescent".into(),
             "runnable work or undelivered output left in the core after all calls returned".into(),
@@ -869,6 +999,13 @@ where
     union.events = new_events.clone();
     result.effects_seen = union.effects.len();
     result.events_seen = union.events.len();
+    if exp.free {
+        free_oracle::<A>(&mut host, &final_log, &views, log_before, &union, &mut findings);
+        host.finish();
+        cmdlab::ops::EMIT_LOG_ON.store(false, Ordering::SeqCst);
+        result.findings = findings;
+        return result;
+    }
     let mut oe = union.effects.clone();
     oe.sort();
     if oe != exp.effects {
@@ -1001,6 +1138,124 @@ where
     host.finish();
     result.findings = findings;
     result
+}
+
+/// Model-free monitors for scenarios without a single expectation (abort races).
+fn free_oracle<A: LabApp>(
+    host: &mut CoreHost<A>,
+    final_log: &[Logged],
+    views: &[Vec<Logged>],
+    log_before: usize,
+    union: &Obs,
+    findings: &mut Vec<(String, String, Value)>,
+) where
+    A::Effect: LabEffect,
+{
+    let conservation = |applied: &[Logged], findings: &mut Vec<(String, String, Value)>, when: &str| {
+        let emitted: Vec<(u32, u64)> = cmdlab::ops::EMIT_LOG.lock().unwrap().clone();
+        let applied: Vec<(u32, u64)> = applied.iter().map(|l| (l.tag, l.val)).collect();
+        let (mut e, mut a) = (emitted.clone(), applied.clone());
+        e.sort();
+        a.sort();
+        if e != a {
+            let lost: Vec<_> = e.iter().filter(|x| !a.contains(x)).collect();
+            let extra: Vec<_> = a.iter().filter(|x| !e.contains(x)).collect();
+            let sig = if !lost.is_empty() { "abort-race/emitted-event-never-applied" } else if !extra.is_empty() { "abort-race/applied-event-never-emitted" } else { "abort-race/event-applied-twice" };
+            findings.push((
+                sig.into(),
+                format!("{when}: the events applied to the model are not exactly the events the tasks emitted"),
+                json!({"emitted": emitted, "applied": applied, "lost": lost, "extra": extra}),
+            ));
+            return;
+        }
+        // one task = one tag range (below / above 1000): emission order is application order
+        for range in [0u32..1000, 1000..u32::MAX] {
+            let es: Vec<_> = emitted.iter().filter(|x| range.contains(&x.0)).collect();
+            let as_: Vec<_> = applied.iter().filter(|x| range.contains(&x.0)).collect();
+            if es != as_ {
+                findings.push((
+                    "abort-race/task-order".into(),
+                    format!("{when}: events of one task were applied out of emission order"),
+                    json!({"emitted": es, "applied": as_}),
+                ));
+            }
+        }
+    };
+    conservation(final_log, findings, "after the concurrent calls");
+    for v in views {
+        let ok = v.len() >= log_before && v.len() <= final_log.len() && v[..] == final_log[..v.len()];
+        if !ok {
+            findings.push((
+                "concurrent/view-not-a-prefix".into(),
+                "view() taken during concurrent calls is not a prefix of the final log".into(),
+                json!({"view_len": v.len(), "before": log_before, "final": final_log.len()}),
+            ));
+        }
+    }
+    if cmdlab::ops::UPDATE_REENTERED.swap(0, Ordering::SeqCst) != 0 {
+        findings.push((
+            "concurrent/update-entered-concurrently".into(),
+            "update was entered while another update was in progress".into(),
+            json!({}),
+        ));
+    }
+    for a in &union.anomalies {
+        findings.push(("concurrent/duplicate-effect".into(), a.clone(), json!({"anomaly": a})));
+    }
+    if !findings.is_empty() {
+        return;
+    }
+    // afterwards: every call has returned, so the abort has been requested and no poll is in
+    // progress; from here on nothing of the aborted command (tags below 1000) may run, while the
+    // sibling (tags from 7000) still works. Answer everything that is outstanding.
+    let emitted_before = cmdlab::ops::EMIT_LOG.lock().unwrap().len();
+    let mut val = 900_000u64;
+    for _round in 0..6 {
+        let keys: Vec<Key> = host.table.keys().copied().collect();
+        if keys.is_empty() {
+            break;
+        }
+        let mut keys = keys;
+        keys.sort();
+        for (site, arg) in keys {
+            val += 1;
+            let mut obj = host.table.remove(&(site, arg)).expect("request object");
+            let r = match &mut obj {
+                ReqObj::Op(r) => host.core.resolve(r, cmdlab::ops::Val(val)),
+                ReqObj::Sig(r) => host.core.resolve(r, ()),
+            };
+            if let Ok(effects) = r {
+                let mut tmp = Obs::default();
+                for e in effects {
+                    absorb::<A>(e, &mut host.table, &mut tmp);
+                }
+                for a in tmp.anomalies {
+                    findings.push(("concurrent/duplicate-effect".into(), a.clone(), json!({"anomaly": a})));
+                }
+            }
+            // a stream request stays answerable: keep it out of the table, one item is enough
+            drop(obj);
+        }
+    }
+    let emitted: Vec<(u32, u64)> = cmdlab::ops::EMIT_LOG.lock().unwrap().clone();
+    let late: Vec<_> = emitted[emitted_before..].iter().filter(|x| x.0 < 1000).collect();
+    if !late.is_empty() {
+        findings.push((
+            "abort-race/aborted-command-ran-after-abort-returned".into(),
+            "a task of the aborted command emitted events after the aborting call had returned".into(),
+            json!({"late": late}),
+        ));
+    }
+    let log = host.core.view().log;
+    conservation(&log, findings, "after answering everything that was outstanding");
+    let s = host.core.verif_executor_stats();
+    if s.spawn_len != 0 || s.requests_len != 0 || s.events_len != 0 {
+        findings.push((
+            "residual/core-not-quiescent".into(),
+            "undelivered output left in the core after all calls returned".into(),
+            json!({"ready": s.ready_len, "spawn": s.spawn_len, "effects": s.requests_len, "events": s.events_len}),
+        ));
+    }
 }
 
 // ---------------------------------------------------------------------------
@@ -1337,6 +1592,9 @@ fn main() {
     }
     let thorough = args.thorough();
     let seed = args.worker_seed();
+    if args.extra.get("families").map(|s| s.as_str()) == Some("events") {
+        EVENTS_ONLY.store(true, Ordering::SeqCst);
+    }
 
     if let Some(path) = &args.replay {
         let v: Value = serde_json::from_str(&std::fs::read_to_string(path).unwrap()).unwrap();
@@ -1397,6 +1655,10 @@ fn main() {
                         r.count("forced_schedules", 1);
                         r.count("effects_observed", res.effects_seen as u64);
                         r.count("events_observed", res.events_seen as u64);
+                        if exp.free {
+                            r.count("abort_race_runs", 1);
+                            r.count(if res.events_seen == 0 { "abort_race_runs_where_nothing_of_the_burst_was_applied" } else { "abort_race_runs_where_the_burst_was_applied" }, 1);
+                        }
                         if res.peer_release {
                             r.count("blocked_on_peer_releases", 1);
                         }
@@ -1469,6 +1731,10 @@ fn main() {
                     r.count(&format!("runs_with_{}_threads", scn.ops.len()), 1);
                     r.count("effects_observed", res.effects_seen as u64);
                     r.count("events_observed", res.events_seen as u64);
+                    if exp.free {
+                        r.count("abort_race_runs", 1);
+                        r.count(if res.events_seen == 0 { "abort_race_runs_where_nothing_of_the_burst_was_applied" } else { "abort_race_runs_where_the_burst_was_applied" }, 1);
+                    }
                     r.nontrivial(hash_mix(scn_hash, rep));
                     record(&mut r, &res, &kind, json!({"rep": rep}));
                 }
